@@ -423,7 +423,14 @@ static void array_tests(std::mt19937_64& rng)
           auto raw = (*pa).UNSAFE_unverified();
           for (size_t r = 0; r < R; r++) {
             for (size_t c = 0; c < C; c++) {
-              got[r * C + c] = bits_of((T)raw[r][c]);
+              // (written so that it still compiles if the unwrapped type loses a dimension: the
+              // values recorded are then not those of the array, which is what gets judged)
+              auto& row = raw[r];
+              if constexpr (std::is_array_v<std::remove_reference_t<decltype(row)>>) {
+                got[r * C + c] = bits_of((T)row[c]);
+              } else {
+                got[r * C + c] = (W)-424242;
+              }
             }
           }
         }
